@@ -230,6 +230,7 @@ class TorchDistribution:
         self.distribution = distribution
         self.squash_output = squash_output
         self.sampled_action = None
+        self._squashed_sample = None
         self._handler = self._get_handler(distribution)
 
     def _get_handler(self, distribution: DistributionType) -> DistributionHandler:
@@ -258,7 +259,8 @@ class TorchDistribution:
         self.sampled_action = self._handler.sample(self.distribution)
 
         if self.squash_output:
-            return torch.tanh(self.sampled_action)
+            self._squashed_sample = torch.tanh(self.sampled_action)
+            return self._squashed_sample
 
         return self.sampled_action
 
@@ -270,7 +272,15 @@ class TorchDistribution:
         :return: Log probability of the action.
         :rtype: torch.Tensor
         """
-        _action = action if not self.squash_output else self.sampled_action
+        if not self.squash_output:
+            _action = action
+        elif action is self._squashed_sample:
+            # The action we have just sampled: its pre-squash value is known exactly
+            _action = self.sampled_action
+        else:
+            # Any other (e.g. stored) action: evaluate the Gaussian at its own pre-image
+            eps = torch.finfo(action.dtype).eps
+            _action = torch.atanh(action.clamp(min=-1.0 + eps, max=1.0 - eps))
 
         log_prob = self._handler.log_prob(self.distribution, _action)
 
